@@ -467,6 +467,23 @@ class FSInterp(ResultInterp):
                 if name == "seek" and args and isinstance(args[0], int) and (len(args) == 1 or args[1] == 0):
                     o.pos = args[0]
                     return o.pos
+                if name == "seek" and len(args) == 2 and isinstance(args[0], int) and (args[1] == 2 or (isinstance(args[1], Sym) and args[1].name.endswith("SEEK_END"))):
+                    txt = render_text(fs, o.path) if o.path in fs.files else ""
+                    if txt is None:
+                        return Unknown("seek from the end of an unrendered file")
+                    o.pos = max(len(txt.encode("utf8")) + args[0], 0)
+                    return o.pos
+                if name == "read" and len(args) == 1 and isinstance(args[0], int) and not isinstance(args[0], bool) and args[0] >= 0:
+                    self.fslog("raw-read", o.path)
+                    if inode_of(fs, o.path) != o.inode or o.path not in fs.files:
+                        return b""
+                    txt = render_text(fs, o.path)
+                    if txt is None:
+                        return Unknown("raw read")
+                    data = txt.encode("utf8")
+                    out = data[o.pos : o.pos + args[0]]
+                    o.pos = min(o.pos + args[0], max(o.pos, len(data)))
+                    return out
                 if name in ("readall", "read") and not args:
                     self.fslog("raw-read", o.path)
                     if inode_of(fs, o.path) != o.inode or o.path not in fs.files:
